@@ -692,6 +692,30 @@ def replay_group_by_pipeline(index, ob, seed, saved=None):
                 first_on_page = False
         if k != len(keys):
             return _r(True, input=case, observed=f"{k} data rows read back, {len(keys)} expected")
+    # null and the empty string are DIFFERENT group keys (both are displayed as an empty cell, but a change between them starts a new run)
+    for keys, expect in ((["", "A", None], "ok"), (["", None, ""], "ValueError"), ([None, None, ""], "ok")):
+        case = {"group_by": ["g"], "keys": [repr(k) for k in keys], "expect": expect}
+        if saved is not None and case != saved.get("input", saved):
+            continue
+        dfn = pl.DataFrame({"g": pl.Series("g", keys, dtype=pl.Utf8), "x": [f"r{i}" for i in range(len(keys))]})
+        try:
+            rtf.RTFDocument(df=dfn, rtf_body=rtf.RTFBody(group_by=["g"], as_colheader=False)).rtf_encode()
+            got = "ok"
+        except ValueError:
+            got = "ValueError"
+        except Exception as e:
+            got = type(e).__name__
+        if got != expect:
+            return _r(True, input=case, observed=got, expected=expect)
+    dfn = pl.DataFrame({"g0": pl.Series("g0", [None, ""], dtype=pl.Utf8), "g1": ["A", "A"], "x": ["r0", "r1"]})
+    try:
+        s = rtf.RTFDocument(df=dfn, rtf_body=rtf.RTFBody(group_by=["g0", "g1"], as_colheader=False)).rtf_encode()
+        got = [[c.text for c in r.cells] for p in parse(s).pages for r in p.rows if len(r.cells) == 3]
+        if got != [["", "A", "r0"], ["", "A", "r1"]]:
+            return _r(True, input={"group_by": ["g0", "g1"], "g0": ["None", "''"], "g1": ["A", "A"]}, observed=got,
+                      expected=[["", "A", "r0"], ["", "A", "r1"]])
+    except Exception as e:
+        return _r(True, input={"group_by": ["g0", "g1"], "g0": ["None", "''"], "g1": ["A", "A"]}, observed=type(e).__name__)
     # two-level hierarchy whose key names are NOT in alphabetical order (the order of group_by is the hierarchy, outer level first)
     two = [{"SITE": ["x", "x"], "ARM": ["y", "x"]}, {"SITE": ["s1", "s1", "s2", "s2"], "ARM": ["a", "b", "a", "b"]},
            {"SITE": ["s1", "s1", "s1", "s2"], "ARM": ["a", "a", "b", "b"]}]
